@@ -7,12 +7,18 @@ from __future__ import annotations
 
 
 def emit_all(emit) -> None:
+    """Value tables first (the ones `Model/C03.lean` names: they cannot fail), then every `ast` group in its own
+    `emit.guard`, the relation bodies one guard per relation."""
+    import ast
     import dataclasses
+    import inspect
+    import textwrap
 
     from classy_blocks.grading import relations
     from classy_blocks.grading.chop import Chop
     from classy_blocks.util import constants
 
+    # ---- value tables (read from the imported package, no translation)
     tn, td = float(constants.TOL).as_integer_ratio()
     emit("c03TolNum", "Nat", tn, "constants.TOL as an exact rational: numerator")
     emit("c03TolDen", "Nat", td, "constants.TOL: denominator")
@@ -25,25 +31,43 @@ def emit_all(emit) -> None:
         [f.name for f in dataclasses.fields(Chop)],
         "dataclasses.fields(Chop), in declaration order (the keys of Chop.results)",
     )
-    # --- round 5: what the source text of the anchored functions says (read with `ast`, nothing is interpreted)
-    import ast
-    import inspect
-    import textwrap
-
-    tree = ast.parse(textwrap.dedent(inspect.getsource(Chop.calculate)))
-    rounds = [
-        n.iter.args[0].value
-        for n in ast.walk(tree)
-        if isinstance(n, ast.For) and isinstance(n.iter, ast.Call) and getattr(n.iter.func, "id", None) == "range"
-        and len(n.iter.args) == 1 and isinstance(n.iter.args[0], ast.Constant)
-    ]
+    probe = Chop()
+    emit(
+        "c03ChopDefaults",
+        "List (String × String)",
+        [(f.name, repr(getattr(probe, f.name))) for f in dataclasses.fields(Chop)],
+        "repr of the field values of Chop() after __post_init__ (no arguments)",
+    )
+    # the loop bound of Chop.calculate is part of the *model* (`calcRounds`): always emitted; when the source cannot be
+    # read the list is empty, `calcRounds` is 0 and the closure theorems (not the model) break
+    try:
+        tree = ast.parse(textwrap.dedent(inspect.getsource(Chop.calculate)))
+        rounds = [
+            n.iter.args[0].value
+            for n in ast.walk(tree)
+            if isinstance(n, ast.For) and isinstance(n.iter, ast.Call) and getattr(n.iter.func, "id", None) == "range"
+            and len(n.iter.args) == 1 and isinstance(n.iter.args[0], ast.Constant) and type(n.iter.args[0].value) is int
+            and n.iter.args[0].value >= 0
+        ]
+    except Exception:
+        tree, rounds = None, []
     emit("c03CalcRounds", "List Nat", rounds, "the constant bounds of `for _ in range(N)` loops in Chop.calculate (one: the closure loop)")
-    keys = [sorted(e.value for e in n.elts) for n in ast.walk(tree) if isinstance(n, ast.Set)]
-    emit("c03RequiredKeys", "List (List String)", keys, "the set literals in Chop.calculate (one: the values that must be known to return), sorted")
 
-    guards = []
-    for name, fn in inspect.getmembers(relations, inspect.isfunction):
-        if name.startswith("get_") and name.count("__") == 2:
+    # ---- ast groups, each guarded: a group that cannot translate the current source leaves the others in place
+    def required_keys():
+        keys = [sorted(e.value for e in n.elts) for n in ast.walk(tree) if isinstance(n, ast.Set)]
+        emit("c03RequiredKeys", "List (List String)", keys, "the set literals in Chop.calculate (one: the values that must be known to return), sorted")
+
+    emit.guard(required_keys)
+
+    rel_fns = [
+        (name, fn) for name, fn in inspect.getmembers(relations, inspect.isfunction)
+        if name.startswith("get_") and name.count("__") == 2
+    ]
+
+    def guards():
+        out = []
+        for name, fn in rel_fns:
             o, a, b = name[4:].split("__")
             ftree = ast.parse(textwrap.dedent(inspect.getsource(fn)))
             calls = sorted(
@@ -52,60 +76,62 @@ def emit_all(emit) -> None:
                 if isinstance(n, ast.Call) and isinstance(n.func, ast.Name) and n.func.id.startswith("_validate_")
             )
             raises = sum(isinstance(n, ast.Raise) for n in ast.walk(ftree))
-            guards.append(((o, a, b), [(c[2], c[3]) for c in calls], raises))
-    emit(
-        "c03Guards",
-        "List ((String × String × String) × List (String × String) × Nat)",
-        guards,
-        "per relation: the `_validate_*` calls in source order (validator, arguments) and the number of explicit `raise` statements",
-    )
+            out.append(((o, a, b), [(c[2], c[3]) for c in calls], raises))
+        emit(
+            "c03Guards",
+            "List ((String × String × String) × List (String × String) × Nat)",
+            out,
+            "per relation: the `_validate_*` calls in source order (validator, arguments) and the number of explicit `raise` statements",
+        )
 
-    probe = Chop()
-    emit(
-        "c03ChopDefaults",
-        "List (String × String)",
-        [(f.name, repr(getattr(probe, f.name))) for f in dataclasses.fields(Chop)],
-        "repr of the field values of Chop() after __post_init__ (no arguments)",
-    )
+    emit.guard(guards)
 
-    # --- round 6: the bodies of the relations (and of the simple validators, Chop.invert) as expression trees.
-    # Python `ast` on the current source -> prefix token lists (grammar: lean/CBV/Model/C03Trans.lean, `Stmt.enc`).
-    # Anything outside the grammar raises: the tables are not generated and the run is red.
-    bodies = []
-    for name, fn in inspect.getmembers(relations, inspect.isfunction):
-        if name.startswith("get_") and name.count("__") == 2:
-            o, a, b = name[4:].split("__")
-            fdef = ast.parse(textwrap.dedent(inspect.getsource(fn))).body[0]
-            params = [x.arg for x in fdef.args.args]
-            if params != ["length", a, b]:
-                raise TranslateError(f"{name}: parameters {params} are not (length, {a}, {b})")
-            bodies.append(((o, a, b), _Translator(name, params).body(fdef.body)))
-    emit(
-        "c03RelBodies",
-        "List ((String × String × String) × List String)",
-        bodies,
-        "per relation: its body (guards, branches, expressions, numeric library calls) as prefix tokens of the statement tree",
-    )
-    vbodies = []
-    for name in ["_validate_length", "_validate_start_end_size", "_validate_c2c_expansion", "_validate_total_expansion"]:
-        fdef = ast.parse(textwrap.dedent(inspect.getsource(getattr(relations, name)))).body[0]
+    # round 6: the bodies as prefix token lists (grammar: lean/CBV/Model/C03Trans.lean, `Stmt.enc`); one table and one
+    # guard per relation.  Locals (and local functions, their parameter) are renamed v0, v1, … in order of first
+    # appearance; comments, docstrings, annotations, `print` calls are not part of the tokens.
+    def relation_body(name, fn):
+        o, a, b = name[4:].split("__")
+        fdef = ast.parse(textwrap.dedent(inspect.getsource(fn))).body[0]
         params = [x.arg for x in fdef.args.args]
-        vbodies.append((name, params, _Translator(name, params).body(fdef.body, allow_none=True)))
-    emit(
-        "c03ValidatorBodies",
-        "List (String × List String × List String)",
-        vbodies,
-        "the simple validators: name, parameters, body as prefix tokens (`_validate_count` evaluates a string: its condition is in the call)",
-    )
+        if params != ["length", a, b]:
+            raise TranslateError(f"{name}: parameters {params} are not (length, {a}, {b})")
+        emit(
+            f"c03Body_{o}__{a}__{b}",
+            "List String",
+            _Translator(name, params).body(fdef.body),
+            f"body of `{name}` (guards, branches, expressions, numeric library calls) as prefix tokens of the statement tree",
+        )
 
-    # Chop.invert: the statements in order (tuple swap, `if self.x is not None: self.y = 1 / self.z`, if/elif on a string field)
-    idef = ast.parse(textwrap.dedent(inspect.getsource(Chop.invert))).body[0]
-    emit(
-        "c03InvertBody",
-        "List String",
-        _translate_method(idef),
-        "Chop.invert: its statements in order as prefix tokens (grammar: lean/CBV/Model/C03Trans.lean, `IStmt.enc`)",
-    )
+    for name, fn in rel_fns:
+        emit.guard(relation_body, name, fn)
+
+    def validator_bodies():
+        vbodies = []
+        for name in ["_validate_length", "_validate_start_end_size", "_validate_c2c_expansion", "_validate_total_expansion"]:
+            fdef = ast.parse(textwrap.dedent(inspect.getsource(getattr(relations, name)))).body[0]
+            params = [x.arg for x in fdef.args.args]
+            tr = _Translator(name, [], rename=params)
+            vbodies.append((name, len(params), tr.body(fdef.body, allow_none=True)))
+        emit(
+            "c03ValidatorBodies",
+            "List (String × Nat × List String)",
+            vbodies,
+            "the simple validators: name, number of parameters (renamed v0, v1, …), body as prefix tokens "
+            "(`_validate_count` evaluates a string: its condition is in the call)",
+        )
+
+    emit.guard(validator_bodies)
+
+    def invert_body():
+        idef = ast.parse(textwrap.dedent(inspect.getsource(Chop.invert))).body[0]
+        emit(
+            "c03InvertBody",
+            "List String",
+            _translate_method(idef),
+            "Chop.invert: its statements in order as prefix tokens (grammar: lean/CBV/Model/C03Trans.lean, `IStmt.enc`)",
+        )
+
+    emit.guard(invert_body)
 
 
 class TranslateError(Exception):
@@ -118,10 +144,24 @@ class _Translator:
     BIN = {"Add": "+", "Sub": "-", "Mult": "*", "Div": "/", "Pow": "**"}
     CMP = {"Lt": "<", "LtE": "<=", "Gt": ">", "GtE": ">=", "Eq": "==", "NotEq": "!="}
 
-    def __init__(self, where, params):
+    def __init__(self, where, params, rename=()):
         self.where = where
-        self.names = set(params)   # parameters and locals assigned so far
+        self.params = set(params)
+        self.ren = {}              # source name of a local / local function / its parameter -> v0, v1, …
+        for p in rename:           # parameters whose names carry no meaning (validators)
+            self.local(p)
+        self.names = set(params) | set(self.ren)   # parameters and locals assigned so far
         self.funcs = set()         # local function definitions
+
+    def local(self, name):
+        if name in self.params:
+            raise TranslateError(f"{self.where}: the parameter {name} is assigned to / shadowed")
+        if name not in self.ren:
+            self.ren[name] = f"v{len(self.ren)}"
+        return self.ren[name]
+
+    def shown(self, name):
+        return self.ren.get(name, name)
 
     def fail(self, node, why):
         import ast
@@ -149,7 +189,7 @@ class _Translator:
                 return ["R_MAX"]
             if e.id not in self.names:
                 self.fail(e, "unknown name")
-            return ["var", e.id]
+            return ["var", self.shown(e.id)]
         if isinstance(e, ast.Attribute):
             if self.dotted(e) == "constants.TOL":
                 return ["TOL"]
@@ -173,9 +213,9 @@ class _Translator:
             if fn == "scipy.optimize.brentq" and len(e.args) == 3 and isinstance(e.args[0], ast.Name):
                 if e.args[0].id not in self.funcs:
                     self.fail(e, "brentq on an unknown function")
-                return ["brentq", e.args[0].id] + self.expr(e.args[1]) + self.expr(e.args[2])
+                return ["brentq", self.shown(e.args[0].id)] + self.expr(e.args[1]) + self.expr(e.args[2])
             if fn in self.funcs and len(e.args) == 1:
-                return ["call", fn] + self.expr(e.args[0])
+                return ["call", self.shown(fn)] + self.expr(e.args[0])
             self.fail(e, "unsupported call")
         self.fail(e, "unsupported expression")
 
@@ -205,9 +245,12 @@ class _Translator:
         out = [str(len(stmts))]
         new = []
         for s in stmts:
+            if isinstance(s, ast.AnnAssign) and isinstance(s.target, ast.Name) and s.value is not None and s.simple:
+                s = ast.Assign(targets=[s.target], value=s.value, lineno=s.lineno)
             if not (isinstance(s, ast.Assign) and len(s.targets) == 1 and isinstance(s.targets[0], ast.Name)):
                 self.fail(s, "branch of an if/else is not a plain assignment")
-            out += [s.targets[0].id] + self.expr(s.value)
+            value = self.expr(s.value)
+            out += [self.local(s.targets[0].id)] + value
             new.append(s.targets[0].id)
         return out, new
 
@@ -220,7 +263,7 @@ class _Translator:
                 args = []
                 for a in s.value.args:
                     if isinstance(a, ast.Name) and a.id in self.names:
-                        args.append(a.id)
+                        args.append(self.shown(a.id))
                     elif isinstance(a, ast.Constant) and isinstance(a.value, str):
                         args.append(a.value)
                     else:
@@ -241,19 +284,29 @@ class _Translator:
                 self.names |= set(na)
                 return ["ite"] + test + a + b
             self.fail(s, "unsupported if statement")
+        if isinstance(s, ast.AnnAssign) and isinstance(s.target, ast.Name) and s.value is not None and s.simple:
+            s = ast.Assign(targets=[s.target], value=s.value, lineno=s.lineno)   # the annotation is not part of the tokens
         if isinstance(s, ast.Assign) and len(s.targets) == 1 and isinstance(s.targets[0], ast.Name):
-            out = ["assign", s.targets[0].id] + self.expr(s.value)
+            value = self.expr(s.value)
+            out = ["assign", self.local(s.targets[0].id)] + value
             self.names.add(s.targets[0].id)
             return out
         if isinstance(s, ast.Return) and s.value is not None:
             return ["ret"] + self.expr(s.value)
         if isinstance(s, ast.FunctionDef):
+            if (len(s.body) == 2 and isinstance(s.body[0], ast.Expr) and isinstance(s.body[0].value, ast.Constant)
+                    and isinstance(s.body[0].value.value, str)):
+                s = ast.FunctionDef(name=s.name, args=s.args, body=s.body[1:], decorator_list=s.decorator_list, lineno=s.lineno)
             if (len(s.args.args) == 1 and not s.args.defaults and not s.decorator_list and len(s.body) == 1
                     and isinstance(s.body[0], ast.Return) and s.body[0].value is not None):
                 p = s.args.args[0].arg
-                inner = _Translator(self.where + "." + s.name, self.names | {p})
+                fname = self.local(s.name)
+                inner = _Translator(self.where + "." + s.name, self.names)
+                inner.ren = self.ren          # one numbering for the whole relation
+                pname = inner.local(p)
+                inner.names.add(p)
                 inner.funcs = set(self.funcs)
-                out = ["def", s.name, p] + inner.expr(s.body[0].value)
+                out = ["def", fname, pname] + inner.expr(s.body[0].value)
                 self.funcs.add(s.name)
                 return out
             self.fail(s, "unsupported local function")
@@ -267,6 +320,9 @@ class _Translator:
             stmts = stmts[1:]  # docstring
         out = []
         for s in stmts:
+            if (isinstance(s, ast.Expr) and isinstance(s.value, ast.Call) and isinstance(s.value.func, ast.Name)
+                    and s.value.func.id == "print"):
+                continue  # report statement
             out += self.stmt(s)
         if not allow_none and not (stmts and isinstance(stmts[-1], ast.Return)):
             raise TranslateError(f"{self.where}: the body does not end with a return")
